@@ -117,9 +117,9 @@ def w_api(case):
             # spelling when it is a tuple / list, the same pair at the other text size and in another mode
             out["history"] = True
             try:
-                colors.Color(text_sp)
                 if isinstance(text_sp, (tuple, list)):
                     colors.ColorPair(str(text_sp), bg_sp, bool(large)).make_readable(mode=mode, very_readable=bool(very))
+                colors.Color(text_sp)
                 colors.ColorPair(text_sp, bg_sp, not bool(large)).make_readable(mode=mode, very_readable=bool(very))
                 colors.ColorPair(text_sp, bg_sp, bool(large)).make_readable(mode=(mode + 1) % 3, very_readable=bool(very))
             except Exception:  # noqa
